@@ -45,7 +45,9 @@ from harness.core import Discrepancy, Outcome
 PROPERTY = "C14"
 LEVEL = "exploration"
 RULE = ("case = (abstract dictionary model, route code|text, document type eds|dcf, destination that is "
-        "re-imported: path with inferred doc type | path with explicit doc type | StringIO | stdout). "
+        "re-imported: path with inferred doc type | path with explicit doc type | StringIO | stdout; a path with "
+        "several dots in directory and file name is written too). Code-built dictionaries may then have every "
+        "default / parameter value changed and be exported and imported a second time. "
         "Models have 1..4 objects (VAR/DOMAIN/ARRAY/RECORD of 1..20 members) over 0x1000..0x9FFF, all 23 "
         "data types, defaults / parameter values / limits at the range ends of every integer width incl. "
         "negative ones, REAL/string/byte defaults, storage location, factor/unit/description, device "
@@ -268,6 +270,13 @@ def export_all(od, doc):
     with open(path2) as f:
         docs["path+type"] = f.read()
     other = "dcf" if doc == "eds" else "eds"
+    # a file name and a directory with more dots than the one in front of the suffix
+    ddir = os.path.join(scratch_dir(), "rev1.2")
+    os.makedirs(ddir, exist_ok=True)
+    path4 = os.path.join(ddir, f"{os.getpid()}-node9.v2.{doc}")
+    canopen.export_od(od, path4)
+    with open(path4) as f:
+        docs["path with several dots"] = f.read()
     path3 = os.path.join(scratch_dir(), f"{os.getpid()}-exp3.{other}")
     canopen.export_od(od, path3, doc_type=doc)       # the suffix is only the default for doc_type
     with open(path3) as f:
@@ -373,7 +382,51 @@ def run_case(case) -> Outcome:
             except KeyError:
                 D.append(Discrepancy("C14/lookup", f"od2[{o['name']!r}] raises KeyError"))
                 break
+    # ---- the application edits defaults / values of a dictionary it built and exports it again
+    if not D and case.get("edit") and route == "code":
+        n_edit = _edit_values(od)
+        before2 = snapshot(od)
+        try:
+            buf = io.StringIO()
+            canopen.export_od(od, buf, doc_type=doc)
+            s = io.StringIO(buf.getvalue())
+            s.name = "edited." + doc
+            od3 = canopen.import_od(s, node)
+        except Exception as e:
+            return Outcome(bool(nt), klass, [Discrepancy(f"C14/after-edit/raises/{type(e).__name__}",
+                                                         f"second export/import raised {type(e).__name__}: {e}")])
+        D2 = []
+        compare(D2, before2, snapshot(od3), doc == "dcf")
+        D = [Discrepancy("C14/after-edit/" + d.signature.split("/", 1)[1],
+                         f"after {n_edit} defaults/values were changed and the dictionary exported again: {d.detail}")
+             for d in D2]
     return Outcome(bool(nt), klass, D[:1])
+
+
+def _edited(dt, x):
+    if dt == rc.BOOLEAN:
+        return not x
+    if dt in rc.INTEGERS:
+        lo, hi = rc.int_range(dt)
+        return x + 1 if x < hi else x - 1
+    if dt in rc.REALS:
+        return 2.5 if x == 1.5 else 1.5
+    if dt in em.BYTES_TYPES:
+        return bytes(x) + b"\x01"
+    return x + "x" if isinstance(x, str) else x
+
+
+def _edit_values(od):
+    from canopen.objectdictionary import ODVariable
+    n = 0
+    for obj in od.indices.values():
+        for var in ([obj] if isinstance(obj, ODVariable) else list(obj.subindices.values())):
+            for attr in ("default", "value"):
+                x = getattr(var, attr)
+                if x is not None and var.data_type in em.ALL_TYPES:
+                    setattr(var, attr, _edited(var.data_type, x))
+                    n += 1
+    return n
 
 
 # ---- enumerated families -------------------------------------------------------------
@@ -423,7 +476,7 @@ def enum_cases(tier):
                  "storage": None, "members": members}
             for doc in ("eds", "dcf"):
                 yield {"model": _model([o]), "route": "code", "node_arg": None, "doc": doc,
-                       "dest": DESTS[n % 4], "family": "enum/subs"}
+                       "dest": DESTS[n % 4], "family": "enum/subs", "edit": True}
     # node ids and bit rates (DCF)
     for node in range(1, 128):
         n += 1
@@ -431,7 +484,7 @@ def enum_cases(tier):
         o = {"kind": "var", "index": 0x1400, "name": "cob", "sp": 0, "storage": None, "var": v}
         com = {"node_id": node, "baudrate": em.STD_BAUD[n % 8] if n % 9 else None, "baud_hex": False}
         yield {"model": _model([o], commissioning=com), "route": "code", "node_arg": None, "doc": "dcf",
-               "dest": DESTS[n % 4], "family": "enum/node"}
+               "dest": DESTS[n % 4], "family": "enum/node", "edit": n % 2 == 0}
 
 
 @st.composite
@@ -448,7 +501,7 @@ def cases(draw):
         model["comments"] = model["comments"] + [""]               # G1 (reported), excluded + counted
     return {"model": model, "route": route, "node_arg": node_arg,
             "doc": "dcf" if (flags >> 3) & 1 else "eds",
-            "dest": DESTS[(flags >> 4) & 3], "family": "hyp"}
+            "dest": DESTS[(flags >> 4) & 3], "family": "hyp", "edit": route == "code" and bool((flags >> 6) & 1)}
 
 
 def search(ctx):
